@@ -1037,6 +1037,14 @@ def p_next(eng, st, name, args, site, depth, call):
         return one(st, NONE)        # iterating the Default of a collection: empty
     n = st.fresh()
     res = ("calli", "next", (it,), n)
+    if it[0] == "loopvar" and it[3] == 0:
+        # first element of a parametric loop whose collection is nevertheless known to be non-empty at this call site (a literal
+        # passed as argument): "no element" is not an execution
+        for e in st.effects:
+            if e.kind == "loop_enter" and e.name == it[1]:
+                c0 = e.value.get(it[2]) if isinstance(e.value, dict) else None
+                if isinstance(c0, tuple) and c0 and c0[0] == "list" and c0[1]:
+                    st.refine[("only", res)] = ("Some",)
     if a[0] == "ref":
         # the iterator has moved on: a second next() on the same variable is a different element
         eng.write_loc(st, a[1], a[2], ("call", "advance", (it,)))
